@@ -71,7 +71,7 @@ def field_header(ctx, m, specs, headers, out='fields.h'):
             if o not in offs: raise Broken('layout: no IR field of %s at offset %d (%s)' % (irn, o, mem))
             idx = offs.index(o)
             mapping[(pre, mem)] = idx
-            lines.append('#define %s%s f%d' % (pre, mem, idx))
+            lines.append('#define %s_%s f%d' % (pre.rstrip('_'), mem.lstrip('_'), idx))
     open(ctx.path(out), 'w').write('\n'.join(lines) + '\n')
     return mapping
 
